@@ -371,8 +371,24 @@ def n4_debug_assert(text, cnt):
             args = _split_args(text[po + 1:pc])
             if len(args) < 2:
                 raise ExtractError('N4: cannot split ' + text[idx:pc + 1])
-            text = text[:idx] + 'debug_assert!((%s) %s (%s))' % (args[0], op, args[1]) + text[pc + 1:]
+            text = text[:idx] + 'debug_assert_((%s) %s (%s))' % (args[0], op, args[1]) + text[pc + 1:]
             cnt['N4'] = cnt.get('N4', 0) + 1
+    # plain debug_assert!(c [, msg]) -> debug_assert_(c): a prelude function whose precondition is `c`
+    while True:
+        idx = -1
+        for i, kind, t in scan(text):
+            if kind == 'code' and t == 'd' and text.startswith('debug_assert!', i):
+                idx = i
+                break
+        if idx < 0:
+            break
+        po = idx + len('debug_assert!')
+        while text[po].isspace():
+            po += 1
+        pc = match_close(text, po)
+        args = _split_args(text[po + 1:pc])
+        text = text[:idx] + 'debug_assert_(%s)' % args[0] + text[pc + 1:]
+        cnt['N4'] = cnt.get('N4', 0) + 1
     return text
 
 
@@ -634,7 +650,7 @@ def parse_quoted_pair(arg):
     return un(m.group(1)), un(m.group(2)), int(m.group(4)) if m.group(4) else 1
 
 
-def process_fn_block(head, lines, meta):
+def process_fn_block(head, lines, meta, stub=False):
     parts = head.split()
     if len(parts) < 2:
         raise ExtractError('bad //@fn: ' + head)
@@ -768,6 +784,23 @@ def process_fn_block(head, lines, meta):
         body = '\n'.join(blines)
 
     out = []
+    if stub:
+        # caller-side view: same signature and the same contract text, body not used (external_body)
+        out.append('#[verifier::external_body]')
+        out.append(sig.rstrip())
+        mode = None
+        for l in spec:
+            st = l.strip()
+            if st.startswith('requires'):
+                mode = 'req'
+            elif st.startswith('ensures'):
+                mode = 'ens'
+            if mode == 'ens':
+                l = re.sub(r'\[(C\d\d\.[\w\-.]+)\]', r'(\1)', l)
+            out.append('/*@inj*/' + l)
+        out.append('{ unimplemented!() }')
+        meta['stubs'].append((implkey + '::' if implkey != '-' else '') + name)
+        return '\n'.join(out)
     for a in attrs:
         out.append(a)
     out.append(sig.rstrip())
@@ -789,6 +822,17 @@ def process_type(arg, meta):
     orig = src[st:end]
     cnt = {}
     text = normalise(orig, cnt)
+    if 'pub' in parts[2:]:
+        # N1': keep the type and its fields public (needed when a public std trait's spec impl mentions them)
+        text = re.sub(r'^(\s*)(struct|enum)\b', r'\1pub \2', text, 1)
+        out_lines = []
+        depth = 0
+        for l in text.split('\n'):
+            if depth == 1 and re.match(r'\s*\w+\s*:', l):
+                l = re.sub(r'^(\s*)', r'\1pub ', l, 1)
+            depth += l.count('{') - l.count('}')
+            out_lines.append(l)
+        text = '\n'.join(out_lines)
     meta['types'].append(dict(name=name, file='src/' + relfile, lines=[src.count('\n', 0, st) + 1, src.count('\n', 0, end) + 1],
                               sha256=hashlib.sha256(orig.encode()).hexdigest(), rules=cnt))
     return text
@@ -796,7 +840,14 @@ def process_type(arg, meta):
 
 def include(path, base):
     p = os.path.join(base, path)
-    return open(p).read().split('\n')
+    out = []
+    for ln in open(p).read().split('\n'):
+        st = ln.strip()
+        if st.startswith('//@include '):
+            out.extend(include(st[len('//@include '):].strip(), base))
+        else:
+            out.append(ln)
+    return out
 
 
 def generate(template_path, out_path):
@@ -806,12 +857,17 @@ def generate(template_path, out_path):
     exp = []
     for ln in lines:
         s = ln.strip()
-        if s.startswith('//@include '):
+        if s.startswith('//@include-stubs '):
+            exp.append('//@stubmode on')
+            exp.extend(include(s[len('//@include-stubs '):].strip(), base))
+            exp.append('//@stubmode off')
+        elif s.startswith('//@include '):
             exp.extend(include(s[len('//@include '):].strip(), base))
         else:
             exp.append(ln)
     lines = exp
-    meta = dict(template=os.path.relpath(template_path), functions=[], types=[])
+    meta = dict(template=os.path.relpath(template_path), functions=[], types=[], stubs=[])
+    stubmode = False
     out = []
     i = 0
     while i < len(lines):
@@ -825,10 +881,16 @@ def generate(template_path, out_path):
                 j += 1
             if j >= len(lines):
                 raise ExtractError('unterminated //@fn block: ' + s)
-            out.append('/*@fnstart ' + s[6:].strip() + '*/')
-            out.append(process_fn_block(s[6:].strip(), blk, meta))
-            out.append('/*@fnend*/')
+            if stubmode:
+                out.append(process_fn_block(s[6:].strip(), blk, meta, stub=True))
+            else:
+                out.append('/*@fnstart ' + s[6:].strip() + '*/')
+                out.append(process_fn_block(s[6:].strip(), blk, meta))
+                out.append('/*@fnend*/')
             i = j + 1
+        elif s.startswith('//@stubmode '):
+            stubmode = s.endswith('on')
+            i += 1
         elif s.startswith('//@type '):
             out.append(process_type(s[8:], meta))
             i += 1
